@@ -126,7 +126,12 @@ def run_case(desc):
         raise HarnessError('C10 entry {} has domain != range'.format(name))
     x = zoo.point(dom, desc['x'])
     variant = str(opts.get('variant', opts.get('how', '-')))
-    region = '{},{},{}'.format(name, variant, zoo._space_tag(ran))
+    # region: the options that select a code path of the proximal (data
+    # term, step kind) and the coarse space kind; wrappers keep their entry
+    vshort = ','.join(variant.split(',')[:2])
+    region = '{},{}'.format(
+        vshort if cls.startswith('Prox') else name + ',' + vshort,
+        zoo._space_tag(ran).split('-')[0])
     strata = ['entry:' + name, 'cls:' + cls, 'family:' + ent.family,
               'variant:{}|{}'.format(name, variant),
               'space:' + zoo._space_tag(ran)]
@@ -137,6 +142,7 @@ def run_case(desc):
 
     # reference: out-of-place on a copy
     x0 = _copy(x, dom)
+    x0b = _bytes(x0, dom)
     try:
         r = op(x0)
     except NotImplementedError:
@@ -148,7 +154,7 @@ def run_case(desc):
                         '{}: P(x) raised {!r}'.format(name, e))
     if r not in ran:
         raise Violation(sig('not-in-range'), name + ': P(x) not in range')
-    if _bytes(x0, dom) != _bytes(x, dom):
+    if _bytes(x0, dom) != x0b:
         raise Violation(sig('x-modified'), name + ': P(x) modified x')
 
     # guard: non-aliased in-place evaluation
